@@ -18,7 +18,7 @@ from ..selftest import Seed
 from . import c04
 
 META = {
-    "technique": "sibling-table agreement (shortcut vs dyad primitive via a THIN result-path census), registry table agreement, closure-capture and build-time effect analysis of the chain builder, node-memo rule",
+    "technique": "sibling-table agreement (shortcut vs dyad primitive via a THIN result-path census), registry table agreement, closure-capture and build-time effect analysis of the chain builder, node-memo rule, counting-loop exit rule, operator-parameter usage rule for adverbs of monadic verbs",
     "level_text": "Static proof over the whole shortcut table and adverb registry: every shortcut folds with the primitive its verb's dyad applies, the registry tables agree symbol by symbol, chains capture their stages by value and read no variable state when built. It enumerates all verb x adverb shortcut entries instead of sampling operands; fold values, empty/atom cases of the generic path and user-function verbs are not decided.",
     "level_note": "decides the structural clause below from source; does not decide the behaviour. Trusted: ufunc.reduce/accumulate fold along axis 0 with the ufunc's own binary operation; np.min/np.max on rank 1 equal minimum/maximum.reduce; default arguments are evaluated at lambda creation.",
     "explanation": (
@@ -26,7 +26,8 @@ META = {
         "(safe_eq(op.a, c) -> np primitive) of eval_adverb_over / eval_adverb_scan_over are extracted and each operator c is resolved through the "
         "dyad dispatch table to its implementation, whose return paths are enumerated (THIN census); symbol sets of is_adverb, get_adverb_arity and "
         "get_adverb_fn are compared and the parameter lists of the returned callables checked against the call shapes of chain_adverbs; closures "
-        "created in the chain loop must bind loop variables as defaults; the chain builder must not read variable state; eval must not memoise chains."),
+        "created in the chain loop must bind loop variables as defaults; the chain builder must not read variable state; eval must not memoise chains."
+        " Later additions: counting loops of the iterate adverbs must exit through an ordering comparison (R6); adverbs that apply their verb to one argument must not read `op`, which is the chain's base verb (R7)."),
     "assumptions": ["the numpy backend's ufuncs are the reference primitives"],
 }
 
